@@ -79,6 +79,12 @@ Theorem C12_src_send_condition : forall bs sent b,
   chan_send bs sent (UCopied b) = (sent + b, if x_send_cond sent b bs then [UCopied b] else []).
 Proof. exact x_send_cond_ok. Qed.
 
+(* a zero-byte kernel answer ends a block job successfully only at/after the end of the source, measured from the
+   CURRENT position (off + done), not from the end of the requested block: anything earlier sends an Error update *)
+Theorem C12_src_premature_end_is_error : forall flen off done,
+  x_block_job_zero_is_end flen off done = (flen <=? off + done).
+Proof. reflexivity. Qed.
+
 Print Assumptions C12_batching_sound.
 Print Assumptions C12_delivery_is_prefix_monotone.
 Print Assumptions C12_copy_bytes_reports_le_len.
@@ -87,3 +93,4 @@ Print Assumptions C12_prefix_bound.
 Print Assumptions C12_prefix_bound_delivered.
 Print Assumptions C12_src_send_condition.
 Print Assumptions C12_size_before_copied.
+Print Assumptions C12_src_premature_end_is_error.
